@@ -24,7 +24,7 @@ func (v *Verifier) newTr(u *Unit) *tr {
 		info = u.Pkg.TypesInfo
 	}
 	t := &tr{V: v, u: u, pkg: u.Pkg, info: info, vars: map[types.Object]*Var{}, named: map[string]*Var{},
-		counters: map[string]int{}, errSet: map[string]bool{}, params: map[string]Term{}, touched: map[*Var]bool{}}
+		counters: map[string]int{}, errSet: map[string]bool{}, rangeColl: map[int]Term{}, params: map[string]Term{}, touched: map[*Var]bool{}}
 	t.allocTop = t.newVar("allocTop", SInt, nil, true)
 	t.panicking = t.newVar("panicking", SBool, types.Typ[types.Bool], false)
 	t.panicVal = t.newVar("panicval", SInt, nil, false)
@@ -36,6 +36,12 @@ func (t *tr) unitSpecCtx(cur Env) *specCtx {
 	vars := map[string]Term{}
 	for k, v := range t.params {
 		vars[k] = v
+	}
+	// variables captured by a function literal denote their value in the state the clause is evaluated in
+	for _, c := range t.captured {
+		if _, shadow := vars[c.name]; !shadow {
+			vars[c.name] = t.readIn(cur, c.v)
+		}
 	}
 	var pkg = t.u.Pkg
 	if t.u.Contract != nil {
@@ -186,6 +192,7 @@ func (v *Verifier) generate(u *Unit) *UnitResult {
 		for _, o := range freeVars(u.Lit, t.info) {
 			pv := t.localVar(o)
 			t.assume(t.typeInv(pv.at(0), o.Type(), root.Env))
+			t.captured = append(t.captured, capturedVar{o.Name(), pv})
 		}
 	}
 	// results
